@@ -41,6 +41,7 @@ pub mod biscuit_auth {
             #[verifier::external_body] pub fn fact(self, s: &str) -> Result<Self, super::error::Token> { unimplemented!() }
             #[verifier::external_body] pub fn rule(self, s: &str) -> Result<Self, super::error::Token> { unimplemented!() }
             #[verifier::external_body] pub fn check(self, s: &str) -> Result<Self, super::error::Token> { unimplemented!() }
+            #[verifier::external_body] pub fn build_with_rng(self, root: &super::KeyPair, symbols: super::SymbolTable, rng: &mut crate::rand_stub::StdRng) -> Result<super::Biscuit, super::error::Token> { unimplemented!() }
         }
         impl BlockBuilder {
             #[verifier::external_body] pub fn new() -> Self { unimplemented!() }
@@ -60,6 +61,14 @@ pub mod biscuit_auth {
         }
     }
     #[verifier::external_body] pub struct Authorizer { _p: u8 }
+    impl Authorizer {
+        #[verifier::external_body]
+        pub fn authorize(&mut self) -> Result<usize, error::Token> { unimplemented!() }
+        #[verifier::external_body]
+        pub fn print_world(&self) -> String { unimplemented!() }
+    }
+    #[verifier::external_body] pub struct SymbolTable { _p: u8 }
+    impl SymbolTable { #[verifier::external_body] pub fn default() -> SymbolTable { unimplemented!() } }
     pub mod format { pub mod schema { pub mod public_key {
         use vstd::prelude::*;
         pub enum Algorithm { Ed25519 = 0, Secp256r1 = 1 }
@@ -81,7 +90,7 @@ pub mod biscuit_auth {
     // ASSUMED contracts of the Rust API (the length facts are proved in unit chain)
     #[verifier::external_body] pub struct KeyPair { _p: u8 }
     #[verifier::external_body] pub struct PrivateKey { _p: u8 }
-    #[verifier::external_body] pub struct PublicKey { _p: u8 }
+    #[verifier::external_body] #[derive(Clone, Copy)] pub struct PublicKey { _p: u8 }
     #[verifier::external_body] pub struct Biscuit { _p: u8 }
     pub uninterp spec fn pk_is_ed25519(k: PublicKey) -> bool;
     pub uninterp spec fn token_wire_len(b: Biscuit) -> nat;
@@ -114,6 +123,16 @@ pub mod biscuit_auth {
     impl Biscuit {
         #[verifier::external_body]
         pub fn builder() -> builder::BiscuitBuilder { unimplemented!() }
+        #[verifier::external_body]
+        pub fn from(slice: &[u8], root: PublicKey) -> Result<Biscuit, error::Token> { unimplemented!() }
+        #[verifier::external_body]
+        pub fn append_with_keypair(&self, keypair: &KeyPair, block_builder: builder::BlockBuilder) -> Result<Biscuit, error::Token> { unimplemented!() }
+        #[verifier::external_body]
+        pub fn authorizer(&self) -> Result<Authorizer, error::Token> { unimplemented!() }
+        #[verifier::external_body]
+        pub fn print(&self) -> String { unimplemented!() }
+        #[verifier::external_body]
+        pub fn print_block_source(&self, index: usize) -> Result<String, error::Token> { unimplemented!() }
         // to_vec().len() == serialized_size() for the SAME token (prost: encoded_len is the length of the
         // encoding); nothing relates the size of seal()'s result to the unsealed size
         #[verifier::external_body]
@@ -135,6 +154,7 @@ pub mod capi {
     use crate::verif_std::*;
     use crate::biscuit_auth;
     use crate::rand_stub::StdRng;
+    use crate::biscuit_auth::SymbolTable;
     pub struct SeedableRng { }
     impl SeedableRng { pub fn from_seed(seed: [u8; 32]) -> StdRng { crate::rand_stub::from_seed(seed) } }
 
@@ -287,6 +307,112 @@ pub mod capi {
     }
     #[verifier::external_body]
     pub fn verif_str_to_string(s: &str) -> String { unimplemented!() }
+    // C strings: ASSUMED valid NUL-terminated buffers (the property assumes valid handles and buffers)
+    #[verifier::external_body] pub struct CStr { _p: u8 }
+    #[verifier::external_body] pub struct Utf8Error { _p: u8 }
+    impl std::fmt::Debug for Utf8Error { #[verifier::external_body] fn fmt(&self, f: &mut std::fmt::Formatter<'_>) -> std::fmt::Result { unimplemented!() } }
+    impl CStr {
+        #[verifier::external_body]
+        pub fn from_ptr<'a>(p: *const c_char) -> &'a CStr { unimplemented!() }
+        #[verifier::external_body]
+        pub fn to_str(&self) -> Result<&str, Utf8Error> { unimplemented!() }
+    }
+    //@extract biscuit-capi/src/lib.rs :: fn biscuit_builder_add_fact
+    //@ rewrites R9 R17
+    //@ requires handle: builder is Some ==> builder->Some_0.0 is Some
+    //@ ensures null: builder is None ==> !r
+    //@end
+    //@extract biscuit-capi/src/lib.rs :: fn biscuit_builder_set_context
+    //@ rewrites R9 R17
+    //@ requires handle: builder is Some ==> builder->Some_0.0 is Some
+    //@ ensures null: builder is None ==> !r
+    //@end
+    //@extract biscuit-capi/src/lib.rs :: fn biscuit_builder_add_rule
+    //@ rewrites R9 R17
+    //@ requires handle: builder is Some ==> builder->Some_0.0 is Some
+    //@ ensures null: builder is None ==> !r
+    //@end
+    //@extract biscuit-capi/src/lib.rs :: fn biscuit_builder_add_check
+    //@ rewrites R9 R17
+    //@ requires handle: builder is Some ==> builder->Some_0.0 is Some
+    //@ ensures null: builder is None ==> !r
+    //@end
+    //@extract biscuit-capi/src/lib.rs :: fn block_builder_set_context
+    //@ rewrites R9 R17
+    //@ requires handle: builder is Some ==> builder->Some_0.0 is Some
+    //@ ensures null: builder is None ==> !r
+    //@end
+    //@extract biscuit-capi/src/lib.rs :: fn block_builder_add_fact
+    //@ rewrites R9 R17
+    //@ requires handle: builder is Some ==> builder->Some_0.0 is Some
+    //@ ensures null: builder is None ==> !r
+    //@end
+    //@extract biscuit-capi/src/lib.rs :: fn block_builder_add_rule
+    //@ rewrites R9 R17
+    //@ requires handle: builder is Some ==> builder->Some_0.0 is Some
+    //@ ensures null: builder is None ==> !r
+    //@end
+    //@extract biscuit-capi/src/lib.rs :: fn block_builder_add_check
+    //@ rewrites R9 R17
+    //@ requires handle: builder is Some ==> builder->Some_0.0 is Some
+    //@ ensures null: builder is None ==> !r
+    //@end
+    //@extract biscuit-capi/src/lib.rs :: fn authorizer_builder_add_fact
+    //@ rewrites R9 R17
+    //@ requires handle: builder is Some ==> builder->Some_0.0 is Some
+    //@ ensures null: builder is None ==> !r
+    //@end
+    //@extract biscuit-capi/src/lib.rs :: fn authorizer_builder_add_rule
+    //@ rewrites R9 R17
+    //@ requires handle: builder is Some ==> builder->Some_0.0 is Some
+    //@ ensures null: builder is None ==> !r
+    //@end
+    //@extract biscuit-capi/src/lib.rs :: fn authorizer_builder_add_check
+    //@ rewrites R9 R17
+    //@ requires handle: builder is Some ==> builder->Some_0.0 is Some
+    //@ ensures null: builder is None ==> !r
+    //@end
+    //@extract biscuit-capi/src/lib.rs :: fn authorizer_builder_add_policy
+    //@ rewrites R9 R17
+    //@ requires handle: builder is Some ==> builder->Some_0.0 is Some
+    //@ ensures null: builder is None ==> !r
+    //@end
+    //@extract biscuit-capi/src/lib.rs :: fn biscuit_builder_set_root_key_id
+    //@ rewrites R9 R17
+    //@ requires handle: builder is Some ==> builder->Some_0.0 is Some
+    //@ ensures null: builder is None ==> !r
+    //@end
+    //@extract biscuit-capi/src/lib.rs :: fn biscuit_builder_build
+    //@ rewrites R9 R17
+    //@ requires handle: builder is Some ==> builder->Some_0.0 is Some
+    //@ ensures null: (builder is None || key_pair is None || seed_len != 32) ==> r is None
+    //@end
+    //@extract biscuit-capi/src/lib.rs :: fn biscuit_from
+    //@ rewrites R9 R17
+    //@ ensures null: root is None ==> r is None
+    //@end
+    //@extract biscuit-capi/src/lib.rs :: fn biscuit_append_block
+    //@ rewrites R9 R17
+    //@ requires handle: block_builder is Some ==> block_builder->Some_0.0 is Some
+    //@ ensures null: (biscuit is None || block_builder is None || key_pair is None) ==> r is None
+    //@end
+    //@extract biscuit-capi/src/lib.rs :: fn biscuit_authorizer
+    //@ rewrites R9 R17
+    //@ ensures null: biscuit is None ==> r is None
+    //@end
+    //@extract biscuit-capi/src/lib.rs :: fn authorizer_authorize
+    //@ rewrites R9 R17
+    //@ ensures null: authorizer is None ==> !r
+    //@end
+    //@extract biscuit-capi/src/lib.rs :: fn authorizer_print
+    //@ rewrites R9 R17
+    //@end
+    //@extract biscuit-capi/src/lib.rs :: fn biscuit_print
+    //@ rewrites R9 R17
+    //@end
+    //@extract biscuit-capi/src/lib.rs :: fn biscuit_print_block_source
+    //@ rewrites R9 R17
+    //@end
     //@extract biscuit-capi/src/lib.rs :: fn biscuit_builder
     //@ ensures handle: r is Some && r->Some_0.0 is Some
     //@end
@@ -320,5 +446,8 @@ pub mod capi {
 //@canary builder-handle-emptied :: biscuit-capi::lib::BiscuitBuilder::add_fact :: self.0.clone().unwrap(); ==>> self.0.take().unwrap();
 //@canary authorizer-builder-handle-emptied :: biscuit-capi::lib::AuthorizerBuilder::add_policy :: self.0.clone().unwrap(); ==>> self.0.take().unwrap();
 //@canary builder-null-no-return :: biscuit-capi::lib::authorizer_builder_build :: update_last_error(Error::InvalidArgument);\n        return None; ==>> update_last_error(Error::InvalidArgument);
+//@canary block-builder-null-no-return :: biscuit-capi::lib::block_builder_add_fact :: update_last_error(Error::InvalidArgument);\n        return false;\n    }\n    let builder = builder.unwrap(); ==>> update_last_error(Error::InvalidArgument);\n    }\n    let builder = builder.unwrap();
+//@canary build-seed-guard :: biscuit-capi::lib::biscuit_builder_build :: if slice.len() != 32 { ==>> if slice.len() > 32 {
+//@canary authorize-null-no-return :: biscuit-capi::lib::authorizer_authorize :: update_last_error(Error::InvalidArgument);\n        return false; ==>> update_last_error(Error::InvalidArgument);
 } // verus!
 fn main() {}
